@@ -289,6 +289,7 @@ var c42Inits = []c42Init{
 	{"v2-only", []string{"v2N"}},
 	{"v1+v2", []string{"v1N", "v2N"}},
 	{"v1+v2extra", []string{"v1N", "v2NX"}},
+	{"v1-only-two-networks", []string{"v1NX"}},
 }
 
 type c42World struct {
@@ -767,12 +768,24 @@ func TestVerifC42(t *testing.T) {
 	c.Set("info_secondary_network_change_kinds", c42Info)
 	c.Set("distinct_outcomes", c.DistinctCount("accepted_transitions")+c.DistinctCount("identity_change_kinds_refused"))
 
-	// vacuity guards
+	// vacuity guards. A guard that fails while violations were reported (an edit can both break the property and starve a
+	// counter) is printed as information: the verdict stays the violation, never "broken harness".
+	guard := func(cond bool, format string, args ...any) {
+		if cond {
+			return
+		}
+		if c.Violations() > 0 {
+			fmt.Printf("INFO property=C42 vacuity guard not met (violations reported): %s\n", fmt.Sprintf(format, args...))
+			return
+		}
+		c.Require(false, format, args...)
+	}
 	for _, n := range []string{"reloads_accepted", "reloads_refused", "identity_changes_refused", "identity_preserving_accepted", "unreadable_ca_reloads",
 		"ca_reloads_accepted", "ca_reloads_refused", "peers_that_must_be_disconnected", "peers_kept", "states_with_both_versions", "attempts_malformed_or_mismatched"} {
-		c.Require(c.Counter(n).Load() > 0, "%s never happened", n)
+		guard(c.Counter(n).Load() > 0, "%s never happened", n)
 	}
-	c.Require(c.DistinctCount("mixed_outcomes") == 4, "cert/CA outcome combinations reached: %d of 4", c.DistinctCount("mixed_outcomes"))
-	c.Require(c.DistinctCount("identity_change_kinds_attempted") >= 6, "identity-change kinds attempted: %d", c.DistinctCount("identity_change_kinds_attempted"))
-	c.Require(c.DistinctCount("accepted_transitions") >= 7, "accepted transition shapes: %d", c.DistinctCount("accepted_transitions"))
+	guard(c.DistinctCount("mixed_outcomes") == 4, "cert/CA outcome combinations reached: %d of 4", c.DistinctCount("mixed_outcomes"))
+	guard(c.DistinctCount("identity_change_kinds_attempted") >= 6, "identity-change kinds attempted: %d", c.DistinctCount("identity_change_kinds_attempted"))
+	guard(c.DistinctCount("identity_change_kinds_refused") >= 5, "identity-change kinds refused: %d", c.DistinctCount("identity_change_kinds_refused"))
+	guard(c.DistinctCount("accepted_transitions") >= 7, "accepted transition shapes: %d", c.DistinctCount("accepted_transitions"))
 }
